@@ -119,6 +119,30 @@ def portOf (netloc : Str) : Option (Option Nat) :=
   else if p.all isDigit then (if parseDec p ≤ 65535 then some (some (parseDec p)) else none)
   else none
 
+/-! ### urllib.parse.urlsplit, as far as url.parse uses it: scheme and netloc -/
+def isC0OrSpace (c : Nat) : Bool := c ≤ 32
+def isUnsafe (c : Nat) : Bool := c = 9 || c = 10 || c = 13
+def isAsciiAlpha (c : Nat) : Bool := (97 ≤ c && c ≤ 122) || (65 ≤ c && c ≤ 90)
+def isSchemeChar (c : Nat) : Bool := isAsciiAlpha c || (48 ≤ c && c ≤ 57) || c = 43 || c = 45 || c = 46
+def isNetlocEnd (c : Nat) : Bool := c = 47 || c = 63 || c = 35
+
+/-- `urlsplit(u)` up to the netloc: (scheme, netloc, everything after the netloc); `none` = ValueError.
+    `validBracketed` = `_check_bracketed_host` (ipaddress) does not raise. -/
+def pySplit (validBracketed : Str → Bool) (u0 : Str) : Option (Str × Str × Str) :=
+  let u := (u0.dropWhile isC0OrSpace).filter (fun c => !isUnsafe c)
+  let pre := u.takeWhile (fun c => c != 58)
+  let sr : Str × Str :=
+    if u.contains 58 ∧ pre ≠ [] ∧ isAsciiAlpha (u.headD 0) = true ∧ pre.all isSchemeChar = true
+    then (lower pre, u.drop (pre.length + 1)) else ([], u)
+  if sr.2.take 2 = [47, 47] then
+    let body := sr.2.drop 2
+    let netloc := body.takeWhile (fun c => !isNetlocEnd c)
+    let rest := body.dropWhile (fun c => !isNetlocEnd c)
+    if netloc.contains 91 != netloc.contains 93 then none
+    else if netloc.contains 91 && !validBracketed (partition 93 (partition 91 netloc).2.2).1 then none
+    else some (sr.1, netloc, rest)
+  else some (sr.1, [], sr.2)
+
 /-! ### url.parse and the Request -/
 structure UrlLib where
   /-- `urllib.parse.urlparse(u)` → (scheme, netloc, path+params+query+fragment with a leading `/`); `none` = ValueError -/
@@ -129,6 +153,24 @@ structure UrlLib where
   validHost : Str → Bool
   /-- `Request.authority` setter followed by the getter -/
   normAuth : Str → Str
+
+/-- the Python side of `url.parse` that is not transcribed: `_check_bracketed_host`, the reassembly
+    `urlunparse(("", "", path, params, query, fragment))` of what follows the netloc (given the scheme), the IDNA round trip,
+    `is_valid_host`, the authority round trip -/
+structure PyLib where
+  validBracketed : Str → Bool
+  normRest : Str → Str → Str
+  idnaRt : Str → Option Str
+  validHost : Str → Bool
+  normAuth : Str → Str
+
+/-- the library with urlsplit's scheme/netloc reading transcribed (`pySplit`) -/
+def pyLib (Q : PyLib) : UrlLib where
+  split u := (pySplit Q.validBracketed u).map (fun t =>
+    (t.1, t.2.1, if (Q.normRest t.1 t.2.2).head? = some 47 then Q.normRest t.1 t.2.2 else 47 :: Q.normRest t.1 t.2.2))
+  idnaRt := Q.idnaRt
+  validHost := Q.validHost
+  normAuth := Q.normAuth
 
 /-- `url.parse(u)` for a `str`; `none` = ValueError -/
 def urlParse (P : UrlLib) (u : Str) : Option (Str × Str × Nat × Str) :=
